@@ -63,7 +63,8 @@ CHECKS = {
              'explicit prepare/measure and a macro containing a subcircuit; TLC emits with each program the number of visits of '
              'the unrolled program. run_jaqal_circuit and parse_jaqal_output_list (on an output list of that length, '
              'strings and ints alternating) run under a CPU watchdog; TLC validates the visit sequence (readouts and hook '
-             'H1), readout numbering, attribution, frequencies, non-zero probability of samples, termination.',
+             'H1), readout numbering, attribution, frequencies, non-zero probability of samples, termination; a configuration with two '
+             'macros (a parameter named like the constant that a later macro uses as loop count) is executed under overrides (site run_ovr).',
         note='Asserted domain: programs C12 accepts in which every unrolled prepare/measure pair is a flat pair.'
              ' The transcription of the walker (WalkAlg) is model-checked for Safety, PrefixOK and Termination on 8 trees.',
         design='5/C08', technique='TLA+ walk semantics (Unroll/VisitsOf) + TLC-enumerated programs replayed into emulator and output parser + TLC trace validation'),
@@ -71,7 +72,8 @@ CHECKS = {
         text='ExecEnum enumerates all placements of prepare_all / measure_all / a gate / subcircuit blocks over nested '
              'sequential blocks, parallel blocks, loops (0,1,2,let) and a macro; TLC computes DiscoverRule (the bracket rule '
              'written declaratively on the flat order) and validates accept/reject, the number of subcircuits and that the '
-             'error message names a violated rule.',
+             'error message names a violated rule. Every second program is also executed on a backend object that has executed '
+             'another program before (site run_shared) and judged exactly like a run on a fresh backend.',
         note='Bounded to <= 3 (quick) / 5 (thorough) nodes; message families are mapped to rules by literal patterns.',
         design='5/C12', technique='TLA+ declarative bracket rule + TLC-enumerated placements replayed into run_jaqal_circuit + TLC validation'),
     'C15': dict(
@@ -80,8 +82,15 @@ CHECKS = {
              'all 2^n outcomes in integer order, string and integer views agree, probabilities are normalised, string and '
              'integer hardware outputs are interpreted identically, frequencies count the readouts; the same programs are also '
              'executed twice (site rerun) and over gate matrices that are unitary to 8 digits only (site approx: views must '
-             'still be normalised and the sampler must not fail).',
-        note='n in {1,2,3,4}; normalisation judged in floating point with 1e-9.',
+             'still be normalised and the sampler must not fail); one outcome is recorded 70 000 times by the emulator and by the '
+             'output parser (site longrun: tallies beyond 16 bits). A consumer of the views is specified and bound as well: '
+             'the validation comments of jaqalpaq.emulator._validator - JaqalValidate.tla has the line-level reader machine '
+             '(section, subcircuit index, collected data, verdict), the writer and the comparison; ValidateEnum enumerates every '
+             'text of <= 4 (quick) / 6 lines over a 12-line alphabet with reader invariants and the writer/reader/comparison round '
+             'trip on abstract executions (every single-field corruption differs); every enumerated text goes through the real '
+             'parse_jaqal_validation, and for executed programs the written comments, what is read back from program + comments and '
+             'the answer of validate_jaqal_circuit to unchanged and single-word-corrupted comments are validated by TLC (Conform_Validate).',
+        note='n in {1,2,3,4}; normalisation judged in floating point with 1e-9; probabilities in validation comments compared on a 2^-30 grid.',
         design='5/C15', technique='TLA+ bit-order operators + recorded result views validated by TLC'),
     'C01': dict(
         text='Machine view (Conform_RT): state (circuit, text), actions Generate and Parse. TLC enumerates programs with the AstEnum '
@@ -125,8 +134,12 @@ CHECKS = {
              'analysis, text generation, emulation, output parsing; length <= 3 quick / 4) and checks the frame condition '
              'InputUnchanged on the machine; every history is replayed on ONE circuit object; after every call the object is '
              'snapshotted (projection incl. native gate table and macro bodies, repr, == against a reference parse) and the result '
-             'is compared with the same call on a fresh parse; TLC validates input_unchanged and same_as_fresh per step.',
-        note='A mutation must be visible through projection, repr or ==.',
+             'is compared with the same call on a fresh parse; TLC validates input_unchanged and same_as_fresh per step. '
+             'Two operations come in two variants with other arguments (let substitution under two override dictionaries naming the '
+             'same constants; subcircuit expansion with the circuit\'s own and with caller-supplied prepare / measure definitions), and a '
+             'generic fingerprint of the whole object graph reachable from the shared circuit (type names, attribute names, container '
+             'shapes, primitive values) is compared after every call (input_graph_unchanged).',
+        note='A mutation must be visible through projection, repr, == or the attribute-level fingerprint of the reachable object graph.',
         design='5/C11', technique='TLA+ history machine with frame condition; TLC-enumerated histories replayed on a shared object; TLC trace validation'),
     'C13': dict(
         text='ExecEnum enumerates parallel blocks with gate / sequential-block branches over 3 qubits named directly, through an '
